@@ -224,7 +224,12 @@ def main():
         engines=engines,
         checks=checks,
         notes='Model-based verification with explicit TLA+ specifications (specs/), checked by TLC and bound to the code by replay '
-              '(spec->code) and batch trace validation (code->spec). See DESIGN.md.',
+              '(spec->code) and batch trace validation (code->spec). See DESIGN.md. Every check also runs itself once more, in parallel, '
+              'at the quick tier in an environment variant (python -O, valjean logger at DEBUG, another working directory; VERIF_VARIANT=0 '
+              'switches this off) and fails if that run finds a violation. Extra specification modules beyond the listed properties (RList, '
+              'EnvOps, ParseLock, PyTask, Equal, Pipeline) run inside host checks and report OBSERVATION lines only (ParseLock and two clauses '
+              'of EnvOps restate C10 / C01 and can raise their violations). harness/check_seeds.sh re-applies the 84 stored seeded changes '
+              '(seeded/) and reports CAUGHT / MISSED per seed.',
         not_applicable=[dict(property_id=p, reason='check not built yet (planned, see DESIGN.md §4)')
                         for p in ALL if p not in CHECKS])
     with open(os.path.join(VERIF, 'MANIFEST.json'), 'w') as f:
